@@ -5735,7 +5735,7 @@ for _t, _d in _R9_FLOORS.items():
 
 # >>> round-11 floors
 # Round-11 class: parsed documents whose Files continuation lines are led in by a Unicode blank other than space / tab ('ubl:*',
-# 'ubl-find:*', M.ubl.*).  quick: about half of the minimum over seeds 0-3 on the unchanged tree; thorough: NOT measured (time box) - 6 x the quick floor, i.e. ~25% of a quick-scaled estimate (the random share is 31 x the quick one, the enumerated share does not grow).
+# 'ubl-find:*', M.ubl.*).  quick: about half of the minimum over seeds 0-3 on the unchanged tree; thorough: about half of seed 0.
 # A run that never parses such a document, never sees one of the 16 characters / the lead shapes, never asks for a name that only a
 # pattern on such a line covers, or never builds the mapping form is INCONCLUSIVE, not held.
 _R11_FLOORS = {
@@ -5835,102 +5835,102 @@ _R11_FLOORS = {
                  'M.ubl.find': 3800,
                  'M.ubl.map': 930,
                  'M.ubl.order': 560}},
- 'thorough': {'C': {'ubl-find:last-match-only-through-led-line-shadows-earlier-paragraph': 3300,
-                    'ubl-find:led-field-matches-but-later-paragraph-wins': 1320,
-                    'ubl-find:name-covered-only-by-patterns-on-led-lines': 7800,
-                    'ubl-find:resolves-to-led-field-through-other-pattern': 5040,
-                    'ubl-find:several-paragraphs-match': 7200,
-                    'ubl:bytes-source': 1740,
-                    'ubl:bytes-source/strict': 1080,
-                    'ubl:bytes-source/strict=False': 600,
-                    'ubl:documents': 3360,
-                    'ubl:documents-with-files-paragraphs-behind-the-led-field': 900,
-                    'ubl:field:all-continuation-lines-led': 3180,
-                    'ubl:field:led-and-plain-continuation-lines-mixed': 2220,
-                    'ubl:files-fields-with-led-lines': 5580,
-                    'ubl:first-character:U+00A0': 1260,
-                    'ubl:first-character:U+1680': 324,
-                    'ubl:first-character:U+2000': 282,
-                    'ubl:first-character:U+2001': 252,
-                    'ubl:first-character:U+2002': 264,
-                    'ubl:first-character:U+2003': 426,
-                    'ubl:first-character:U+2004': 282,
-                    'ubl:first-character:U+2005': 246,
-                    'ubl:first-character:U+2006': 258,
-                    'ubl:first-character:U+2007': 312,
-                    'ubl:first-character:U+2008': 300,
-                    'ubl:first-character:U+2009': 288,
-                    'ubl:first-character:U+200A': 318,
-                    'ubl:first-character:U+202F': 450,
-                    'ubl:first-character:U+205F': 294,
-                    'ubl:first-character:U+3000': 480,
-                    'ubl:first-character:blank': 1260,
-                    'ubl:first-character:tab': 780,
-                    'ubl:lead-shape:blank-then-unicode': 1260,
-                    'ubl:lead-shape:single-unicode-blank': 2580,
-                    'ubl:lead-shape:tab-then-unicode': 780,
-                    'ubl:lead-shape:unicode-then-blank': 1260,
-                    'ubl:lead-shape:unicode-then-tab': 720,
-                    'ubl:lead-shape:unicode-then-unicode': 1620,
-                    'ubl:led-line-followed-by-led-line': 1920,
-                    'ubl:led-line-followed-by-plain-continuation-line': 1800,
-                    'ubl:led-line-is-first-continuation-line': 2700,
-                    'ubl:led-line-is-first-continuation-line/field-line-empty': 1320,
-                    'ubl:led-line-is-last-line-of-the-field': 2820,
-                    'ubl:led-line-is-last-line-of-the-field/and-of-the-paragraph': 1740,
-                    'ubl:led-lines': 8400,
-                    'ubl:line-starts-with-plain-blank-or-tab': 2100,
-                    'ubl:line-starts-with-unicode-blank': 6000,
-                    'ubl:map:matches-observed': 39600,
-                    'ubl:map:paragraphs': 5580,
-                    'ubl:matches-observed/bytes-source': 30000,
-                    'ubl:matches-observed/str-source': 27600,
-                    'ubl:no-end-of-line-after-last-line': 354,
-                    'ubl:patterns-on-led-lines': 9000,
-                    'ubl:source:bytes-buffered': 90,
-                    'ubl:source:bytes-gen': 72,
-                    'ubl:source:bytes-iter': 66,
-                    'ubl:source:bytes-list': 480,
-                    'ubl:source:bytes-list-noeol': 72,
-                    'ubl:source:bytes-tuple': 72,
-                    'ubl:source:bytes-whole': 78,
-                    'ubl:source:bytesio': 498,
-                    'ubl:source:disk-rb': 84,
-                    'ubl:source:disk-rb-raw': 66,
-                    'ubl:source:disk-text': 84,
-                    'ubl:source:str-gen': 96,
-                    'ubl:source:str-iter': 78,
-                    'ubl:source:str-list': 468,
-                    'ubl:source:str-list-noeol': 78,
-                    'ubl:source:str-tuple': 84,
-                    'ubl:source:str-whole': 66,
-                    'ubl:source:stringio': 516,
-                    'ubl:str-source': 1500,
-                    'ubl:str-source/strict': 960,
-                    'ubl:str-source/strict=False': 546,
-                    'ubl:strict': 2040,
-                    'ubl:strict=False': 1200,
-                    'ubl:unicode-blank:U+00A0': 2640,
-                    'ubl:unicode-blank:U+1680': 456,
-                    'ubl:unicode-blank:U+2000': 444,
-                    'ubl:unicode-blank:U+2001': 396,
-                    'ubl:unicode-blank:U+2002': 420,
-                    'ubl:unicode-blank:U+2003': 582,
-                    'ubl:unicode-blank:U+2004': 396,
-                    'ubl:unicode-blank:U+2005': 384,
-                    'ubl:unicode-blank:U+2006': 396,
-                    'ubl:unicode-blank:U+2007': 426,
-                    'ubl:unicode-blank:U+2008': 456,
-                    'ubl:unicode-blank:U+2009': 414,
-                    'ubl:unicode-blank:U+200A': 420,
-                    'ubl:unicode-blank:U+202F': 600,
-                    'ubl:unicode-blank:U+205F': 426,
-                    'ubl:unicode-blank:U+3000': 600},
-              'M': {'M.ubl.ctl.order': 3360,
-                    'M.ubl.files': 7800,
-                    'M.ubl.find': 22800,
-                    'M.ubl.map': 5580,
-                    'M.ubl.order': 3360}}}
+ 'thorough': {'C': {'ubl-find:last-match-only-through-led-line-shadows-earlier-paragraph': 13000,
+                    'ubl-find:led-field-matches-but-later-paragraph-wins': 9300,
+                    'ubl-find:name-covered-only-by-patterns-on-led-lines': 27000,
+                    'ubl-find:resolves-to-led-field-through-other-pattern': 17000,
+                    'ubl-find:several-paragraphs-match': 34000,
+                    'ubl:bytes-source': 5500,
+                    'ubl:bytes-source/strict': 3500,
+                    'ubl:bytes-source/strict=False': 1900,
+                    'ubl:documents': 10000,
+                    'ubl:documents-with-files-paragraphs-behind-the-led-field': 3400,
+                    'ubl:field:all-continuation-lines-led': 11000,
+                    'ubl:field:led-and-plain-continuation-lines-mixed': 9600,
+                    'ubl:files-fields-with-led-lines': 21000,
+                    'ubl:first-character:U+00A0': 5800,
+                    'ubl:first-character:U+1680': 1100,
+                    'ubl:first-character:U+2000': 1100,
+                    'ubl:first-character:U+2001': 1100,
+                    'ubl:first-character:U+2002': 1100,
+                    'ubl:first-character:U+2003': 2200,
+                    'ubl:first-character:U+2004': 1100,
+                    'ubl:first-character:U+2005': 1100,
+                    'ubl:first-character:U+2006': 1100,
+                    'ubl:first-character:U+2007': 1100,
+                    'ubl:first-character:U+2008': 1100,
+                    'ubl:first-character:U+2009': 1100,
+                    'ubl:first-character:U+200A': 1100,
+                    'ubl:first-character:U+202F': 2300,
+                    'ubl:first-character:U+205F': 1100,
+                    'ubl:first-character:U+3000': 2300,
+                    'ubl:first-character:blank': 4900,
+                    'ubl:first-character:tab': 2500,
+                    'ubl:lead-shape:blank-then-unicode': 4900,
+                    'ubl:lead-shape:single-unicode-blank': 14000,
+                    'ubl:lead-shape:tab-then-unicode': 2500,
+                    'ubl:lead-shape:unicode-then-blank': 4800,
+                    'ubl:lead-shape:unicode-then-tab': 2500,
+                    'ubl:lead-shape:unicode-then-unicode': 4900,
+                    'ubl:led-line-followed-by-led-line': 8700,
+                    'ubl:led-line-followed-by-plain-continuation-line': 7600,
+                    'ubl:led-line-is-first-continuation-line': 10000,
+                    'ubl:led-line-is-first-continuation-line/field-line-empty': 5500,
+                    'ubl:led-line-is-last-line-of-the-field': 10000,
+                    'ubl:led-line-is-last-line-of-the-field/and-of-the-paragraph': 7000,
+                    'ubl:led-lines': 33000,
+                    'ubl:line-starts-with-plain-blank-or-tab': 7400,
+                    'ubl:line-starts-with-unicode-blank': 26000,
+                    'ubl:map:matches-observed': 160000,
+                    'ubl:map:paragraphs': 21000,
+                    'ubl:matches-observed/bytes-source': 140000,
+                    'ubl:matches-observed/str-source': 120000,
+                    'ubl:no-end-of-line-after-last-line': 1100,
+                    'ubl:patterns-on-led-lines': 36000,
+                    'ubl:source:bytes-buffered': 450,
+                    'ubl:source:bytes-gen': 440,
+                    'ubl:source:bytes-iter': 440,
+                    'ubl:source:bytes-list': 970,
+                    'ubl:source:bytes-list-noeol': 450,
+                    'ubl:source:bytes-tuple': 440,
+                    'ubl:source:bytes-whole': 460,
+                    'ubl:source:bytesio': 920,
+                    'ubl:source:disk-rb': 460,
+                    'ubl:source:disk-rb-raw': 440,
+                    'ubl:source:disk-text': 460,
+                    'ubl:source:str-gen': 450,
+                    'ubl:source:str-iter': 450,
+                    'ubl:source:str-list': 980,
+                    'ubl:source:str-list-noeol': 460,
+                    'ubl:source:str-tuple': 460,
+                    'ubl:source:str-whole': 460,
+                    'ubl:source:stringio': 960,
+                    'ubl:str-source': 4700,
+                    'ubl:str-source/strict': 3000,
+                    'ubl:str-source/strict=False': 1600,
+                    'ubl:strict': 6600,
+                    'ubl:strict=False': 3500,
+                    'ubl:unicode-blank:U+00A0': 11000,
+                    'ubl:unicode-blank:U+1680': 1400,
+                    'ubl:unicode-blank:U+2000': 1500,
+                    'ubl:unicode-blank:U+2001': 1500,
+                    'ubl:unicode-blank:U+2002': 1500,
+                    'ubl:unicode-blank:U+2003': 2800,
+                    'ubl:unicode-blank:U+2004': 1500,
+                    'ubl:unicode-blank:U+2005': 1500,
+                    'ubl:unicode-blank:U+2006': 1500,
+                    'ubl:unicode-blank:U+2007': 1500,
+                    'ubl:unicode-blank:U+2008': 1500,
+                    'ubl:unicode-blank:U+2009': 1500,
+                    'ubl:unicode-blank:U+200A': 1500,
+                    'ubl:unicode-blank:U+202F': 2900,
+                    'ubl:unicode-blank:U+205F': 1500,
+                    'ubl:unicode-blank:U+3000': 2900},
+              'M': {'M.ubl.ctl.order': 10000,
+                    'M.ubl.files': 35000,
+                    'M.ubl.find': 75000,
+                    'M.ubl.map': 21000,
+                    'M.ubl.order': 10000}}}
 for _t, _d in _R11_FLOORS.items():
     FLOORS[_t]['monitors'].update(_d['M'])
     FLOORS[_t]['counters'].update(_d['C'])
